@@ -23,11 +23,16 @@ def w_job(target, quick, thorough, name="W"):
             shards = spec[3] if len(spec) > 3 else 1
             for s in range(shards):
                 out.append(dict(label="%s#%d" % (profile, s), profile=profile, cases=cases, size=size))
+        # every other process makes one accepted call before the harness installs its reporters (see real::cold_start)
+        for n, inst in enumerate(out):
+            inst["cold"] = n % 2 == 1
         return out
     def cmd(exe, prop, tier, seed, inst, out, rundir, excluded):
         c = [exe, "--prop", prop, "--profile", inst["profile"], "--faildir", rundir, "--out", out, "--maxops", str(max(16, inst["size"]))]
         for k in excluded:
             c += ["--exclude-" + k]
+        if inst.get("cold"):
+            c += ["--coldcall"]
         return c, rc_env(seed, inst["cases"], inst["size"])
     def replay(exe, prop, path):
         return [exe, "--prop", prop, "--replay", path, "--quiet", "--faildir", replay_dir(prop)]
@@ -44,7 +49,7 @@ def w_fuzz_job(profile, quick_runs, thorough_runs, workers_quick=4, workers_thor
         seeds = os.path.join(os.path.dirname(os.path.dirname(os.path.abspath(__file__))), "corpus", "W")
         c = [exe, "-runs=%d" % inst["runs"], "-max_len=1041", "-len_control=0", "-seed=%d" % seed, "-print_final_stats=0",
              "-artifact_prefix=%s/fuzz%d-" % (rundir, inst["w"]), "-timeout=60", "-rss_limit_mb=4096", corp, seeds]
-        return c, {"W_PROFILE": inst["profile"], "W_PROP": prop, "W_OUT": out, "W_FAILDIR": rundir}
+        return c, {"W_PROFILE": inst["profile"], "W_PROP": prop, "W_OUT": out, "W_FAILDIR": rundir, "W_COLD": "1" if inst["w"] % 2 else "0"}
     def replay(exe, prop, path):
         # replays are operation lists understood by the rapidcheck driver's --replay path
         import vbuild
